@@ -8,7 +8,7 @@ present) = cumulative end offsets (entry >> 1 when cache bits are on) with last 
 Not asserted: minimal widths; a particular order among the valid topological orders; the per-cell cache bit value.
 """
 from hypothesis import strategies as st
-from harness.core import Sub, Fail, call, exc_sig, look
+from harness.core import Sub, Fail, call, exc_sig, look, fake_byteorder
 from harness.gen import dag, boccases
 from harness.ref import refcell as rc, refboc
 
@@ -47,6 +47,12 @@ def check(case):
         if small and oi % 2:
             look(root)              # the caller printed the tree in between: it is what it was
         f = _conforms(root, root_r, ndistinct, (idx, crc, cache), '')
+        if f:
+            return f
+    if small:
+        # the wire format does not depend on the host: the same bytes on a machine of the other byte order
+        with fake_byteorder():
+            f = _conforms(root, root_r, ndistinct, (1, 1, 1), 'host-of-the-other-byte-order/')
         if f:
             return f
     return None
